@@ -97,6 +97,7 @@ type HTTPCase struct {
 	Behs      []Beh `json:"behaviours"` // one per ammo entry, in file order
 	Instances int   `json:"instances"`
 	KeepAlive bool  `json:"keep_alive"`
+	Connect   bool  `json:"connect_gun"` // gun type connect (CONNECT tunnel to the target first)
 }
 
 func genHTTP(t *rapid.T) HTTPCase {
@@ -108,6 +109,7 @@ func genHTTP(t *rapid.T) HTTPCase {
 	}
 	c.Instances = rapid.IntRange(1, 3).Draw(t, "instances")
 	c.KeepAlive = rapid.Bool().Draw(t, "keepAlive")
+	c.Connect = rapid.IntRange(0, 3).Draw(t, "connectGun") == 0
 	return c
 }
 
@@ -189,7 +191,7 @@ func checkHTTP(c HTTPCase, o *vf.Obs) error {
 	defer pand.Remove(out)
 	pool := map[string]any{
 		"id": "p",
-		"gun": map[string]any{"type": "http", "target": tg.Addr(), "response-header-timeout": "150ms",
+		"gun": map[string]any{"type": gunType(c.Connect), "target": tg.Addr(), "response-header-timeout": "150ms",
 			"disable-keep-alives": !c.KeepAlive},
 		"ammo":    map[string]any{"type": "uri", "file": name, "passes": 1},
 		"result":  map[string]any{"type": "phout", "destination": out},
@@ -232,10 +234,18 @@ func checkHTTP(c HTTPCase, o *vf.Obs) error {
 		}
 	}
 	o.ClassIf(c.Instances >= 2, "instances_ge_2")
+	o.ClassIf(c.Connect, "connect_gun")
 	if mis > 0 && goodAfterMis {
 		o.NonTrivial()
 	}
 	return nil
+}
+
+func gunType(connect bool) string {
+	if connect {
+		return "connect"
+	}
+	return "http"
 }
 
 func TestHTTPGun(t *testing.T) {
